@@ -52,19 +52,7 @@ def run(ctx):
     ctx.rule('C20.R2', 'every hint_factory= of the protocol finite-state machine resolves to a collections.abc / '
              'beartype.typing protocol alias, never to a concrete builtin type (deviance among sibling nodes): a '
              'concrete factory rejects other implementations of the same protocol')
-    am = repo.mod(ABC)
-    fsm = am.defs.get('get_finite_state_machine')
-    ctx.require(fsm is not None, 'anchor vanished: get_finite_state_machine')
-    facs = [k for c in ast.walk(fsm) if isinstance(c, ast.Call) for k in c.keywords if k.arg == 'hint_factory']
-    for k in facs:
-        nm = dotted(k.value)
-        r = repo.resolve_name(am, k.value, nm) if isinstance(k.value, ast.Name) else None
-        concrete = r is not None and r.kind == 'builtin'
-        ctx.ob('C20.R2', f'fsm-node:hint_factory={nm}', am.where(k.value),
-               'the factory of a protocol node is an abstract protocol', not concrete,
-               f'hint_factory={nm} is the concrete builtin: dictionary views implement the Set protocol but are not '
-               f'instances of {nm}')
-    ctx.floor('C20.R2', len(facs), 15, 'state-machine nodes')
+    _fsm(ctx)
 
     # ---- R3 ----------------------------------------------------------------------
     ctx.rule('C20.R3', 'recursion guard: infer_hint tests id(obj) against the seen-set before any other work; the item '
@@ -77,11 +65,7 @@ def run(ctx):
     im = repo.mod(ITEMS)
     top = im.defs.get('infer_hint_collection_items')
     ctx.require(top is not None, 'anchor vanished: infer_hint_collection_items')
-    ext = [a for a in walk_shallow(top) if isinstance(a, ast.AugAssign) and dotted(a.target) == SEEN and 'id(obj)' in norm(a.value)]
-    calls_after = [c for c in walk_shallow(top) if isinstance(c, ast.Call) and any(k.arg == SEEN for k in c.keywords)]
-    ok = len(ext) == 1 and all(c.lineno > ext[0].lineno for c in calls_after) and bool(calls_after)
-    ctx.ob('C20.R3', 'infer_hint_collection_items:extends-seen-set', im.where(top),
-           'the seen-set is extended with id(obj) before it is handed to the item inferers', ok, '')
+    # (the seen-set handed to the recursive calls is decided by the interpretation of the item inferer: R5 / _items_cover)
     n = 0
     for mn in (ITEMS, ABC, BUILTIN):
         mod = repo.mod(mn)
@@ -217,7 +201,12 @@ def _items_cover(ctx):
         def __repr__(self):
             return f'<{self.kind} of {self.n}>'
     saved_stubs, saved_i, saved_b = dict(F.stubs), F.isinstance_hook, F.builtin_hook
-    F.stubs['beartype.bite._infermain.infer_hint'] = lambda e, a, k: ('hint-of', k.get('obj', a[0] if a else None))
+    seen_sets = []
+
+    def infer_stub(e, a, k):
+        seen_sets.append(k.get('__beartype_obj_ids_seen__', 'NOT PASSED'))
+        return ('hint-of', k.get('obj', a[0] if a else None))
+    F.stubs['beartype.bite._infermain.infer_hint'] = infer_stub
     F.stubs['beartype._util.hint.pep.proposal.pep484.pep484604union.make_hint_pep484604_union'] = lambda e, a, k: ('union', frozenset(a[0]))
     F.stubs['beartype._util.hint.pep.proposal.pep646.pep484585646tuple.make_hint_pep484585_tuple_fixed'] = lambda e, a, k: ('tuple-fixed', tuple(a[0]))
     F.stubs['beartype._util.kind.integer.utilintget.get_integer_pseudorandom_signed_32bit'] = lambda e, a, k: 7
@@ -265,6 +254,7 @@ def _items_cover(ctx):
                 for sname, strat in (('On', ON), ('O1', O1)):
                     for nested in ((False, True) if kind == 'tuple' else (False,)):
                         col = _Col(kind, size)
+                        del seen_sets[:]
                         seen = frozenset({12345}) if nested else frozenset()
                         try:
                             out = _call_function(F, fn, [], dict(obj=col, hint_factory=fac, conf=AConf(strategy=strat),
@@ -272,6 +262,12 @@ def _items_cover(ctx):
                         except (_Abort, _Raise) as ex:
                             ctx.require(False, f'cannot interpret infer_hint_collection_items ({kind}, {size} items, {sname}): {ex}')
                         n += 1
+                        if size:
+                            bad_seen = [x for x in seen_sets if not (isinstance(x, (set, frozenset)) and id(col) in x and set(seen) <= set(x))]
+                            ctx.ob('C20.R3', f'recursion-guard:seen-set-extended:{kind}{"(nested)" if nested else ""}:{size}-items:{sname}',
+                                   im.where(fn.node), 'every recursive infer_hint call of the item inferer receives the seen-set '
+                                   'extended by the id of the collection being inferred', bool(seen_sets) and not bad_seen,
+                                   f'{len(seen_sets)} recursive calls; seen-sets passed: {bad_seen[:2]} (collection id {id(col)}, inherited {set(seen)})')
                         H = lambda x: ('hint-of', x)
                         every = frozenset(H(x) for x in col.elems)
                         everyv = frozenset(H(x) for x in col.vals)
@@ -308,3 +304,113 @@ def _items_cover(ctx):
         F.stubs.clear()
         F.stubs.update(saved_stubs)
     ctx.floor('C20.R5', n, 40, 'collection shapes × strategies')
+
+
+class _KeysDict(dict):
+    """A dictionary whose keys() view supports the set algebra the interpreted code applies to it."""
+
+    def keys(self):
+        return frozenset(self)
+
+
+def _fsm(ctx):
+    """R2 by interpretation: the protocol state machine is built by interpreting get_finite_state_machine() and walked by
+    interpreting the factory inferer over abstract classes given as sets of method names."""
+    from sa.fold import AObj, FuncVal, Sym, Unknown, _Abort, _ObjVal, _Raise, _call_function
+    from . import _gen
+    repo = ctx.repo
+    F = _gen.engines(ctx)[0].f
+    am = repo.mod(ABC)
+    F.interpret_classes |= {f'{ABC}._FiniteStateMachineNode'}
+    build = F.const(ABC, 'get_finite_state_machine')
+    walk = F.const(ABC, '_infer_hint_factory_collections_abc')
+    ctx.require(isinstance(build, FuncVal) and isinstance(walk, FuncVal), 'anchor vanished: the collections.abc state machine')
+    olds = [(n_, F.patch_global('beartype._util.py.utilpyversion', n_, False)) for n_ in ('IS_PYTHON_AT_LEAST_3_12',)
+            if n_ in F.module_env('beartype._util.py.utilpyversion')]
+    saved, saved_i = dict(F.stubs), F.isinstance_hook
+    if 'FROZENDICT_EMPTY' in F.module_env(ABC):
+        olds.append(('@abc:FROZENDICT_EMPTY', F.patch_global(ABC, 'FROZENDICT_EMPTY', {})))
+    try:
+        try:
+            start = _call_function(F, build, [], {}, 1)
+        except (_Abort, _Raise) as ex:
+            ctx.require(False, f'cannot interpret get_finite_state_machine: {ex}')
+        ctx.require(isinstance(start, _ObjVal) and isinstance(start.attrs.get('nodes_next'), dict),
+                    'get_finite_state_machine did not evaluate to a state-machine node')
+        # every node with the methods required to reach it
+        nodes = []
+
+        def rec(node, need):
+            for keys, nxt in node.attrs.get('nodes_next', {}).items():
+                req = need | set(keys)
+                nodes.append((nxt, req))
+                if isinstance(nxt, _ObjVal):
+                    rec(nxt, req)
+        rec(start, set())
+        for nxt, req in nodes:
+            fac = nxt.attrs.get('hint_factory') if isinstance(nxt, _ObjVal) else None
+            nm = getattr(fac, 'name', repr(fac))
+            concrete = isinstance(fac, Sym) and fac.kind == 'builtin'
+            ctx.ob('C20.R2', f'fsm-node:hint_factory={nm.split(".")[-1]}', am.where(build.node),
+                   'the factory of a protocol node is an abstract protocol', fac is not None and not concrete,
+                   f'hint_factory={nm} is the concrete builtin: other implementations of the protocol (dictionary views for Set) '
+                   f'are not instances of it')
+        ctx.floor('C20.R2', len(nodes), 15, 'state-machine nodes')
+        by_name = {getattr(n_.attrs.get('hint_factory'), 'name', '?').split('.')[-1]: (n_, req) for n_, req in nodes}
+        # abstract classes: the canonical implementations (exactly the methods the machine requires for that protocol, plus
+        # unrelated ones) and partial implementations of a richer protocol
+        classes = {}
+        for pname, (n_, req) in by_name.items():
+            classes[f'a {pname} implementation'] = (set(req) | {'unrelated_method'}, pname)
+        for pname in ('Sequence', 'Mapping', 'AbstractSet', 'MutableSequence'):
+            if pname in by_name:
+                n_, req = by_name[pname]
+                some = sorted(req)[:1]
+                # a class that shares ONE method with the richer protocol but lacks the others
+                base = set(by_name.get('Collection', (None, set()))[1]) if 'Collection' in by_name else set()
+                classes[f'a Collection sharing only {some[0]} with {pname}'] = (base | set(some), None)
+        # … and implementations of one protocol that also define a single method of a sibling protocol (the exact-match
+        # shortcut of the walk misses; the fallback must still require ALL methods of the protocol it picks)
+        sib = [p_ for p_ in ('Sequence', 'Mapping', 'AbstractSet', 'Set') if p_ in by_name]
+        for p_ in sib:
+            for q_ in sib:
+                if q_ == p_:
+                    continue
+                extra = sorted(set(by_name[q_][1]) - set(by_name[p_][1]))
+                if extra:
+                    classes[f'a {p_} implementation that also defines {extra[0]} of {q_}'] = (set(by_name[p_][1]) | {extra[0]}, p_)
+        state = {}
+        F.stubs['beartype._util.utilobjattr.get_object_method_name_to_value'] = \
+            lambda e, a, k: _KeysDict({m_: 'method' for m_ in state['methods']} if (
+                k.get('predicate_attr_names_any') is None or state['methods'] & set(k['predicate_attr_names_any'])) else {})
+        F.stubs[f'{ABC}.get_finite_state_machine'] = lambda e, a, k: start
+        F.isinstance_hook = lambda o, c: True if isinstance(o, str) and o.startswith('CLASS:') else (saved_i(o, c) if saved_i else None)
+        n_cls = 0
+        for cname, (methods, exact) in sorted(classes.items()):
+            state['methods'] = methods
+            try:
+                out = _call_function(F, walk.node and walk, ['CLASS:' + cname], {}, 1)
+            except (_Abort, _Raise) as ex:
+                ctx.require(False, f'cannot interpret {walk.qual} for {cname}: {ex}')
+            n_cls += 1
+            hit = [(n_, req) for n_, req in nodes if n_.attrs.get('hint_factory') is out or n_.attrs.get('hint_factory') == out]
+            need = hit[0][1] if hit else None
+            sound = out is None or (need is not None and need <= methods)
+            ctx.ob('C20.R2', f'fsm-walk:sound:{cname}', am.where(walk.node),
+                   'the protocol inferred for a class is one whose required methods the class defines (otherwise the object is '
+                   'not an instance of its own inferred hint)', sound,
+                   f'class with methods {sorted(methods)} is inferred as {getattr(out, "name", out)!r}, which requires {sorted(need) if need else need}')
+            if exact is not None:
+                ctx.ob('C20.R2', f'fsm-walk:exact:{cname}', am.where(walk.node),
+                       f'a class defining exactly the methods of {exact} is inferred as {exact}',
+                       getattr(out, 'name', '?').split('.')[-1] == exact, f'inferred as {getattr(out, "name", out)!r}')
+        ctx.require(n_cls >= 15, f'C20.R2: only {n_cls} abstract classes walked')
+    finally:
+        for n_, o_ in olds:
+            if n_.startswith('@abc:'):
+                F.patch_global(ABC, n_[5:], o_)
+            else:
+                F.patch_global('beartype._util.py.utilpyversion', n_, o_)
+        F.isinstance_hook = saved_i
+        F.stubs.clear()
+        F.stubs.update(saved)
